@@ -29,7 +29,13 @@ func Migrate13_6(f Flow, cfg *Config) (Flow, error) {
 
 	truncate := func(s string, max int) string {
 		// trim before as well as after so that leading spaces don't use up the limit and we don't leave trailing spaces
-		return strings.TrimSpace(stringsx.Truncate(strings.TrimSpace(s), max))
+		t := strings.TrimSpace(stringsx.Truncate(strings.TrimSpace(s), max))
+
+		// a name made of nothing but spaces is still a name, so it's only shortened
+		if t == "" {
+			t = stringsx.Truncate(s, max)
+		}
+		return t
 	}
 
 	for _, node := range f.Nodes() {
